@@ -5,7 +5,8 @@
     P chain <op>* ## <obs>        → the property monitor on the implementation's observation
 
   op tokens:  R<ids>  router.AddMiddleware(ids...)        H<h>:<ids>  handler h .AddMiddleware(ids...)
-              A<h>p | A<h>n  AddHandler / AddNoPublisherHandler of handler "h<h>"
+              A<h>p | A<h>n  AddHandler / AddNoPublisherHandler of handler number h, named "h<h>", or
+              A<h>p=<nameHex> with an explicit name (hex of its UTF-8 bytes, `-` = the empty name)
               P<ids>  AddPublisherDecorators(ids...)      S<ids>      AddSubscriberDecorators(ids...)
               RUN     Run (first) / RunHandlers (later), then one message through every started handler
   ids = comma separated numbers.  Observation: one block per RUN, blocks separated by spaces, `none` without RUN;
@@ -27,27 +28,56 @@ def natOf (cs : List Char) : Option Nat :=
 
 def idsOf (cs : List Char) : Option (List Nat) := (splitOnChar ',' cs).mapM natOf
 
-def hname (n : Nat) : String := "h" ++ toString n
+def isHexTok (cs : List Char) : Bool :=
+  cs == ['-'] || (!cs.isEmpty && cs.length % 2 == 0 && cs.all fun c => c.isDigit || ('a' ≤ c && c ≤ 'f'))
 
-def opOf (tok : String) : Option Op :=
-  if tok == "RUN" then some .run else
+/-- a handler name as the model sees it: `""` for `-`, otherwise the lowercase hex text of its UTF-8 bytes (injective,
+    non-empty for a non-empty name – equality and emptiness are those of the real names) -/
+def nameOfTok (cs : List Char) : Option String :=
+  if !isHexTok cs then none else if cs == ['-'] then some "" else some (String.ofList cs)
+
+/-- the default name of handler number `n` is "h<n>" -/
+def hname (n : Nat) : String := hexEnc ("h" ++ toString n).toUTF8.toList
+
+/-- one token; `names` = handler number ↦ name, filled by the A tokens (`A<h>p`, `A<h>n`, optionally `=<nameHex>`) -/
+def opOf (names : List (Nat × String)) (tok : String) : Option (Op × List (Nat × String)) :=
+  if tok == "RUN" then some (.run, names) else
   match tok.toList with
-  | 'R' :: rest => (idsOf rest).map .routerMw
-  | 'P' :: rest => (idsOf rest).map .pubDec
-  | 'S' :: rest => (idsOf rest).map .subDec
+  | 'R' :: rest => (idsOf rest).map fun ids => (.routerMw ids, names)
+  | 'P' :: rest => (idsOf rest).map fun ids => (.pubDec ids, names)
+  | 'S' :: rest => (idsOf rest).map fun ids => (.subDec ids, names)
   | 'H' :: rest =>
     match splitOnChar ':' rest with
     | [h, ids] => do
       let h ← natOf h
       let ids ← idsOf ids
-      pure (.handlerMw (hname h) ids)
+      let (_, name) ← names.find? (·.1 == h)
+      pure (.handlerMw name ids, names)
     | _ => none
   | 'A' :: rest =>
-    match rest.reverse with
-    | 'p' :: h => (natOf h.reverse).map fun h => .addHandler (hname h) true
-    | 'n' :: h => (natOf h.reverse).map fun h => .addHandler (hname h) false
+    let (spec, name?) := match splitOnChar '=' rest with
+      | [a, n] => (a, some n)
+      | _ => (rest, none)
+    match spec.reverse with
+    | k :: h => do
+      let hasPub ← if k == 'p' then some true else if k == 'n' then some false else none
+      let h ← natOf h.reverse
+      let name ← match name? with | some n => nameOfTok n | none => some (hname h)
+      if names.any (·.1 == h) then none else
+      pure (.addHandler name hasPub, names ++ [(h, name)])
     | _ => none
   | _ => none
+
+def opsOf (toks : List String) : Option (List Op × List (Nat × String)) :=
+  toks.foldlM (fun (acc : List Op × List (Nat × String)) t => do
+    let (o, names) ← opOf acc.2 t
+    pure (acc.1 ++ [o], names)) ([], [])
+
+/-- observation key of a handler: `h<number>` -/
+def keyOf (names : List (Nat × String)) (name : String) : String :=
+  match names.find? (·.2 == name) with
+  | some (n, _) => "h" ++ toString n
+  | none => "h?"
 
 def evStr : Ev → String
   | .sub i c => "s" ++ toString i ++ (if c then "c" else "n")
@@ -57,20 +87,20 @@ def evStr : Ev → String
   | .pub i => "p" ++ toString i
   | .published => "P"
 
-def blockStr (b : List (String × List Ev)) : String :=
+def blockStr (names : List (Nat × String)) (b : List (String × List Ev)) : String :=
   if b.isEmpty then "-" else
-  ";".intercalate (b.map fun (n, t) => n ++ "=" ++ ".".intercalate (t.map evStr))
+  ";".intercalate (b.map fun (n, t) => keyOf names n ++ "=" ++ ".".intercalate (t.map evStr))
 
-def obsStr (obs : List (List (String × List Ev))) : String :=
-  if obs.isEmpty then "none" else " ".intercalate (obs.map blockStr)
+def obsStr (names : List (Nat × String)) (obs : List (List (String × List Ev))) : String :=
+  if obs.isEmpty then "none" else " ".intercalate (obs.map (blockStr names))
 
 def model (toks : List String) : String :=
-  match toks.mapM opOf with
+  match opsOf toks with
   | none => "bad-op"
-  | some ops =>
+  | some (ops, names) =>
     match exec {} ops with
     | none => "bad-op"
-    | some s => obsStr s.obs
+    | some s => obsStr names s.obs
 
 /-! ### the property, evaluated on an observation – written without `Wm.Chain.wrap`/`exec` -/
 
@@ -134,7 +164,7 @@ def parseEntry (cs : List Char) : Option (String × List Tok) :=
 def parseBlock (b : String) : Option (List (String × List Tok)) :=
   if b == "-" then some [] else (splitOnChar ';' b.toList).mapM parseEntry
 
-def monitor (ops : List Op) (blocks : List String) : String := Id.run do
+def monitor (names : List (Nat × String)) (ops : List Op) (blocks : List String) : String := Id.run do
   -- well-formedness of the program (same conditions as the API: a handler exists before it gets middleware, names unique)
   let mut known : List String := []
   for o in ops do
@@ -164,11 +194,11 @@ def monitor (ops : List Op) (blocks : List String) : String := Id.run do
         match parseBlock b with
         | none => return "violated:shape"
         | some entries =>
-          if entries.map (·.1) != started.map (·.1) then return "violated:shape"
-          for (h, t) in entries do
-            match started.find? (·.1 == h) with
+          if entries.map (·.1) != started.map (fun x => keyOf names x.1) then return "violated:shape"
+          for (k, t) in entries do
+            match started.find? (fun x => keyOf names x.1 == k) with
             | none => return "violated:shape"
-            | some (_, hasPub, pre) =>
+            | some (h, hasPub, pre) =>
               let own := pre.foldl (fun acc x => match x with
                 | .routerMw ids => acc ++ ids
                 | .handlerMw g ids => if g == h then acc ++ ids else acc
@@ -187,15 +217,15 @@ def handle (line : String) : String :=
     let toks := rest.takeWhile (· != "##")
     let obs := (rest.dropWhile (· != "##")).drop 1
     if obs.isEmpty then "bad-op" else
-    match toks.mapM opOf with
+    match opsOf toks with
     | none => "bad-op"
-    | some ops =>
-      if obs == ["none"] then monitor ops []
+    | some (ops, names) =>
+      if obs == ["none"] then monitor names ops []
       else if let [o] := obs then
         (if o.startsWith "crash(" || o.startsWith "panic(" then "violated:crash"
          else if o.startsWith "timeout" || o.startsWith "run-returned" || o.startsWith "runhandlers-error" then "violated:not_processed"
-         else monitor ops obs)
-      else monitor ops obs
+         else monitor names ops obs)
+      else monitor names ops obs
   | _ => "bad-op"
 
 def main : IO Unit := driverMain handle
